@@ -422,4 +422,17 @@ def adjacencyGWith (c : CL) (sc : CL → V3 → Int → List (V3 × Nat)) (B : M
 
 end CL
 
+/-! ## which box is in effect (`__cinit__`, `if periodic:` block) -/
+
+/-- `periodic=False`: no box at all (`none`).  Otherwise the explicit `box` argument overrides the
+AtomArray's own box; with neither, `ValueError("AtomArray must have a box to enable periodicity")`. -/
+def chooseBox {β : Type} (periodic : Bool) (expl own : Option β) : Option (Except Err β) :=
+  if periodic = false then none else
+  match expl with
+  | some b => some (.ok b)
+  | none =>
+    match own with
+    | some b => some (.ok b)
+    | none => some (.error .valueError)
+
 end BiotiteModel.C14
